@@ -78,14 +78,15 @@ type midFlip struct {
 }
 
 type poolRig struct {
-	mid     *midFlip
-	ms      *sim.Stream // choices of the mid-selection flips
-	named   bool        // backends written by host name
-	w       *World
-	c       *sim.Ctl
-	st      *sim.Stream
-	mode    string // C14 | C05
-	hdrName string // the field "policy header" hashes (X-Key, or Host)
+	bigMaxFails string // max_fails written as a number beyond 31 bits ("": not in this run)
+	mid         *midFlip
+	ms          *sim.Stream // choices of the mid-selection flips
+	named       bool        // backends written by host name
+	w           *World
+	c           *sim.Ctl
+	st          *sim.Stream
+	mode        string // C14 | C05
+	hdrName     string // the field "policy header" hashes (X-Key, or Host)
 
 	n           int
 	policy      string
@@ -744,7 +745,8 @@ func runPool(mode string) sim.RigFunc {
 		if st.Draw(12) == 0 {
 			// a number of failures nobody reaches ("never give up on a backend"), written as a value
 			// that does not fit the 32 bits the counter has
-			b.WriteString("\t\tmax_fails 4294967298\n")
+			r.bigMaxFails = []string{"4294967298", "3000000000", "2147483648"}[st.Draw(3)]
+			fmt.Fprintf(&b, "\t\tmax_fails %s\n", r.bigMaxFails)
 			r.maxFails = 1<<31 - 1
 			c.Probe("max_fails-beyond-32-bits")
 		} else {
@@ -802,6 +804,19 @@ func runPool(mode string) sim.RigFunc {
 
 		go func() {
 			inst, err := casket.Start(w.Input(text))
+			if err != nil && r.bigMaxFails != "" {
+				// "as many failures as it takes": a number is a number, whatever its size
+				c.Violate("C14/max_fails-value-refused", "", "a configuration with max_fails %s does not load: %v", r.bigMaxFails, err)
+				for _, q := range r.reqs {
+					q.aborted = true
+				}
+				r.started = true
+				<-r.finishCh
+				r.cleanup = true
+				w.Cleanup()
+				r.opDone = true
+				return
+			}
 			if err != nil {
 				panic(fmt.Sprintf("harness: start failed: %v\n%s", err, text))
 			}
